@@ -681,6 +681,15 @@ fn fam_structure(tier: &str) -> Report {
             }
         }
     }
+    // 8a. an EMPTY wrapper (opened, nothing inside) directly followed by a deferred operator: closed at the end of its step,
+    //     it stays a member, and a `~` on the wrapper still starts a step
+    for w in WRAPPERS.iter() {
+        for d in [false, true] {
+            render_h(&[Act { op: w, deferred: d, wrap: true, operands: vec![] }, Act { op: "|>", deferred: true, wrap: false, operands: vec!["after".into()] }], "x", None, &mut r);
+            render_h(&[Act { op: "|>", deferred: false, wrap: false, operands: vec!["f".into()] }, Act { op: w, deferred: d, wrap: true, operands: vec![] }, Act { op: w, deferred: true, wrap: true, operands: vec![] },
+                       Act { op: "=>", deferred: true, wrap: false, operands: vec!["g".into()] }], "x", None, &mut r);
+        }
+    }
     // 8. several wrappers in one branch, each closed explicitly right before a deferred operator (`X >>> i <<< ~Y >>> j <<< ~Z k`):
     //    every member survives, in order
     for w in WRAPPERS.iter() {
